@@ -166,8 +166,7 @@ theorem cinc_char {p0 : List Cmd} {t : Task} {mine : List Mut} (h : OWpark p0 t 
     | returned rs =>
       obtain ⟨s, hs, _, _, hci⟩ := hd
       exact ⟨p0, s, List.prefix_refl _, hs, Or.inr ⟨hco.mpr ⟨rs, rfl⟩, rfl, hci⟩⟩
-    | raisedBody => exact ofStopped _ hd.2 (hnc (by simp))
-    | raisedBase => exact ofStopped _ hd.2 (hnc (by simp))
+    | raised e => exact ofStopped _ hd.2 (hnc (by simp))
     | raisedLocked => exact ofStopped _ hd (hnc (by simp))
     | cancelled => exact ofStopped _ hd (hnc (by simp))
   cases hpc : t.pc <;> simp only [OWpark, hpc] at h
